@@ -479,4 +479,15 @@ theorem run_oldAt : ∀ (steps : List Step) (w : World), ClockOK w → ∀ (i e 
     simp only [List.foldl_cons]
     exact run_oldAt rest (w.step s) (step_clockOK w s hc).1 i e evs (step_oldAt w s hc i e evs h)
 
+theorem configure_ok_lastMod (l l' : Listener) (cfg : RawConfig) (h : configure l cfg = .ok l') :
+    l'.lastMod = l.clock ∧ (configureSt l cfg).1 = l' := by
+  refine ⟨?_, by simp [configureSt, h]⟩
+  unfold configure at h
+  simp only at h
+  split at h
+  · cases h
+  · split at h
+    · cases h
+    · cases h; rfl
+
 end Martian.Shape
